@@ -14,6 +14,10 @@ CLAIMED = {
          "Proved: moving an allocation to a superset never increases the usage of any node set; when overcommit handling succeeds every zone of the zone table intersecting the handled nodes fits its capacity; reservations are never eligible for moving (regenerated priority table); the literal capacity clause is refuted on a 3-node witness (known finding C07:union-overcommit). Every other clause (strict types, normal memory, monotone moves, exact updates, all assigned zones fit) is evaluated on every implementation state of the correspondence run, with all 2^n-1 node subsets enumerated.",
          "Partial: the lift to all assigned zones over whole histories, strict-type confinement and update exactness are sampled (model==code exact on the traces), not proved. Known finding C07:union-overcommit is filtered by class; oversubscription of an assigned zone is still a violation.",
          "DESIGN.md §6 C07"),
+ "C08": ("proof", "Lean 4 contract proof from stage relations (Perm-based partition invariant, any comparator/order) + regenerated dispatcher/front-end/map-range facts + exhaustive small-machine correspondence",
+         "Proved for every duplicate-free candidate set, count and candidate order: taking any admissible selection of candidate sets preserves 'set = result + remaining' (as a permutation) and the count; the thread stage exhausts the count; hence any run made of contract-abiding stages followed by the thread stage returns exactly n distinct CPUs from the set and writes back the set minus exactly those; too-large requests fail unchanged; exact-size requests return the set; ReleaseCpus splits the set into |set|-n returned and n kept CPUs. Tie: regenerated stage order of allocate(), the front-end's three cases and the reviewed list of map ranges (determinism); every real stage execution is checked against the stage contract (packages/cores/threads also relationally), AllocateCpus/ReleaseCpus against the API contract on all subsets x counts of machines with <= 8 online CPUs and sampled larger ones, on two independent discoveries.",
+         "Partial: takeIdleClusters/takeCacheGroups bodies are not modelled (only required to satisfy the stage contract, sampled); comparator correctness is irrelevant to the contract; determinism rests on the reviewed map-range list + differential runs.",
+         "DESIGN.md §6 C08"),
  "C17": ("proof", "Lean 4 invariant proof over all event histories + regenerated statement-order facts + exhaustive bounded correspondence",
          "Proved by induction over every event list: the agent's current config is the effective one (node-specific if it exists, else group/default), a valid effective config is the most recently delivered one, no invalid config is ever delivered; per-step theorems: group updates never deliver over or replace a node config but are remembered, node deletion falls back to the current group config, duplicates (same uid+generation, generation != 0) change nothing, valid non-duplicate node updates are delivered in that step. Tie: regenerated facts on statement order in updateGroupConfig/updateNodeConfig/updateConfig/sameConfigVersion, and exhaustive correspondence over all sequences of length <= 4 (quick) / 5 (thorough) over 14 events plus random longer ones, with predicates evaluated from the events alone.",
          "Trusted: kernel, extractor, harness/driver. notifyFn errors, status patching and watch plumbing (Start's select loop) are outside the model.",
